@@ -1,15 +1,18 @@
 // Engine iavl (property C30): the real tm2/pkg/iavl MutableTree / ImmutableTree
-// / nodeDB / fast-node index / ics23 proofs / export+import over the simulated
-// disk, driven by one seeded history with close+reopen (different cache size,
-// fast index on/off, flush threshold, sync), crash at every physical write of a
-// SaveVersion (enumerated on clones of the disk), main-line crashes (kill and
-// power loss) in SaveVersion and DeleteVersionsTo, power loss at quiescent
-// points and injected write errors.
+// / nodeDB / fast-node index / ics23 proofs / export+import (and reads through
+// tm2/pkg/store/iavl) over the simulated disk, driven by one seeded history
+// with close+reopen (different cache size, fast index on/off, flush threshold,
+// sync), process death at every physical write of a SaveVersion (enumerated on
+// clones of the disk), main-line death (kill and power loss) in SaveVersion and
+// DeleteVersionsTo, power loss at quiescent points and injected write errors.
 //
 // Oracles: a versioned ordered-map model; an op journal that maps "which
-// physical ops survived" to the exact logical state the reopened tree must be
-// in; a never-faulted reference twin fed the same logical history (root hash is
-// a function of the history); ics23 verification against the version's root.
+// physical writes survived" to the exact logical state the reopened tree must
+// be in (only for images that end on an operation boundary - they equal a
+// shorter crash-free history plus a reopen; images cut inside a multi-write
+// call are outside C30 and only counted, see rootCause); a never-faulted
+// reference twin fed the same logical history (root hash is a function of the
+// history); ics23 verification against the version's root.
 package iavl
 
 import (
@@ -1719,9 +1722,8 @@ func (s *isim) opCrashEnum() {
 		s.c.Event("clone: process dies at SaveVersion's write #%d of %d", i, nops)
 		s.recoverWorld(w2, fmt.Sprintf("SaveVersion of v%d, write #%d of %d", post.latest, i, nops), s.c.Bool(), true)
 		if s.stop && s.r.Violation == nil && s.knownHit {
-			// a known finding on a clone leaves the main line intact: go on with the history
+			// an observation (or known finding) on a clone leaves the main line intact
 			s.stop = false
-			return
 		}
 	}
 	if s.stop {
